@@ -3,19 +3,46 @@
 Shape L (+ the H states of C02): complete lattices of input shapes, every point run on the real library, every reported
 reaction row judged by mc/oracles/c03_state.py (relations written from the manual; no engine source).
 
-Parts (each a completed bound):
-  pp    6 solutions x temperatures x every subset of size 1..2 (thorough: ..3 at 25 C, ..4 reduced, one of size 6) of
-        9 phases of phreeqc.dat (8 minerals + CO2(g) as a participant) x per phase target SI {0,-1,+0.5} x initial moles
-        {0,1e-4,1} x restriction {none} + {dissolve_only, precipitate_only, force_equality} x every position of the subset
-  ex    exchangers: defined explicitly / by equilibration / sites tied to a mineral x solutions x reactions x with and
-        without calcite
-  su    surfaces: explicit / equilibrated, no_edl / default / donnan / diffuse_layer, sites tied to Fe(OH)3(a)
-  ss    solid solutions: ideal with 2 and 3 components, binary non-ideal (Guggenheim), two at once
-  hist  every state reached by the breadth-first exploration of C02's reaction-op alphabet (imported from c02.py: the
-        alphabet, the op texts, the initial cells); the last transition of every history is judged
+Parts (each bound is completed or declared not completed; nothing is sampled):
+  pp    solutions x temperatures x every subset of a 9-phase list of phreeqc.dat (8 minerals + CO2(g) as a participant)
+        x per phase target SI {0,-1,+0.5} x initial moles {0,1e-4,1} x restriction none | dissolve_only | precipitate_only |
+        force_equality on one position of the subset.
+          quick   : size 1 (6 solutions), size 2 (4 solutions), 25 C                                   72 k points
+          thorough: size 1 and 2 on 6 solutions x {25,10,80} C; size 3 on 3 solutions at 25 C (amounts {0,1}^3 + all 1e-4);
+                    size 4 on 2 solutions (targets {0,0.5}^4, 5 amount patterns, restriction on the first phase);
+                    one subset of size 6 on 6 solutions x 3 temperatures                              932 k points
+        (force_equality on every position only for single phases and, thorough, pairs at 25 C; elsewhere on the first
+         phase: a force_equality phase that cannot reach its target fails after ~30 ms instead of 1.3 ms)
+  ex    exchangers: by equilibration (1e-6, 0.01, 1 mol), explicit (Na; Na+Ca+K; Ca 1 eq), sites tied to calcite (also
+        to calcite that vanishes) x 6 reactions (one of them: evaporate, SAVE, second simulation reacts again) x with and
+        without calcite x 6 solutions x temperatures
+  su    surfaces: explicit / equilibrated, no_edl / default / donnan / diffuse_layer, many sites, sites tied to Fe(OH)3(a)
+  ss    solid solutions: ideal with 2 (carbonate, sulfate) and 3 components, binary non-ideal (Guggenheim: ex10's, regular,
+        with a miscibility gap), two at once x 3 initial amounts x 5 reactions
+  hist  the states reached by breadth-first exploration of C02's reaction-op alphabet (imported from c02.py: alphabet,
+        op texts, initial cells): every reaction row of the last transition of every history is judged.  quick: any op
+        (and 4 water/composition-changing ops followed by any op) on the cell that holds every reactant, attach op + any
+        op on the plain cell; thorough: any two ops on the full cell, attach + attach + any op on the plain cell.
 
 Only runs with return code 0 are judged (R2); a group of lattice points runs in one freshly loaded instance, after a
-failed run the database is re-loaded; every candidate is re-run alone on a fresh instance before it is reported.
+failed run the database is re-loaded; every candidate is re-run alone on a fresh instance (twice, new processes) before it
+is reported; a candidate that only reproduces inside its group is reported with the group as the replay case.
+
+Calibration on the unchanged tree (R5) - every mismatch class seen and what was done:
+  * sites tied to a mineral that dissolved completely: 1e-20 mol of sites occupied against 0 defined -> oracle: a relative
+    measure does not exist for 0 defined sites, the absolute reading of the statement's 1e-8 (mol) is used there.
+  * an ideal component whose element is not in the system (SI undefined) holds a floor amount (1e-27 mol, x = 1e-23)
+    -> oracle: a mole fraction below 1e-15 is 0 (resolution of "sum to one" in doubles); activity 0 = fraction 0.
+  * MIX op in RUN_CELLS mode (hist): the simulation that defines MIX 1 first runs "mix 1 alone" - no reactant of the cell
+    takes part - then the cell: the first row is not a state of the cell and is not judged.
+  * dissolve_only / precipitate_only phases legitimately sit above / below their target when the restriction binds
+    (that is what the manual says the options do): judged by the restricted relations of the oracle module.
+  * the dump's -fraction_x of a non-ideal binary inside its miscibility gap is the gap-end composition, not moles/sum:
+    statement only asks non-negative and sum to one; the difference is a diagnostic.
+  * GENUINE (kept, narrow fingerprint "exchange site-balance master=X sites tied to a mineral: excess = sites per mole x
+    1e-10 mol"): when the initial solution lacks an element of the mineral an exchanger is tied to, the exchanger ends
+    with sites-per-mole x (moles of mineral + 1e-10): 1e-10 mol is what step.cpp add_pp_assemblage moves from the mineral
+    into the solution to seed the missing element; relative error 1.4e-8 (7e-4 mol of sites) .. 6.5e-7 (1.5e-5 mol).
 """
 import itertools
 import os
@@ -44,6 +71,9 @@ SOLS = {
     "brine": " pH 7\n Na 5500\n Cl 5500 charge\n Ca 10\n S(6) 10\n",
 }
 SOL_ORDER = ["hard", "pure", "nacl", "sea", "amd", "brine"]
+QUICK_PAIR_SOLS = ["hard", "pure", "sea", "amd"]
+TRI_SOLS = ["hard", "sea", "amd"]
+QUAD_SOLS = ["hard", "sea"]
 TEMPS = {"quick": [25.0], "thorough": [25.0, 10.0, 80.0]}
 
 REACTIONS = {
@@ -52,6 +82,8 @@ REACTIONS = {
     "hcl": "REACTION 1\n HCl 1\n 1 2 mmol\n",
     "naoh": "REACTION 1\n NaOH 1\n 1 mmol\n",
     "cacl2": "REACTION 1\n CaCl2 1\n 5 mmol\n",
+    # two simulations: water is removed, everything is saved, then the saved cell reacts again (both rows are judged)
+    "evaporate-save-nacl": ("REACTION 1\n H2O -1\n 10 moles\n", "REACTION 1\n NaCl 1\n 1 mmol\n"),
 }
 EX_DEFS = {      # name -> (text, {master: moles of sites | ("phase", name, sites per mole)}, needs pp text or None)
     "equil-1e-2": (" X 0.01\n -equilibrate 1\n", {"X": 0.01}, None),
@@ -111,10 +143,12 @@ def fmt(x):
 
 
 # ------------------------------------------------------------------------------------------------ part pp
-def restr_options(k, first_only=False):
+def restr_options(k, first_only=False, f_first_only=False):
     out = [None]
     for i in range(1 if first_only else k):
         for r in RESTR:
+            if r == "f" and f_first_only and i > 0:
+                continue
             out.append((r, i))
     return out
 
@@ -124,16 +158,16 @@ PATTERNS = [(0.0,), (1e-4,), (1.0,), (1.0, 0.0), (0.0, 1.0)]     # cyclic initia
 
 def pp_points(k, scheme):
     """All (targets, moles, restriction) of a subset of size k.  restriction = None | (kind, index)."""
-    if scheme == "full":        # every phase its own target and amount, restriction on every position
-        tm = list(itertools.product(TARGETS, MOLES))
+    if scheme in ("full", "full-f1"):   # every phase its own target and amount, restriction on every position
+        tm = list(itertools.product(TARGETS, MOLES))       # ("-f1": force_equality on the first position only)
         for combo in itertools.product(tm, repeat=k):
-            for r in restr_options(k):
+            for r in restr_options(k, f_first_only=scheme.endswith("-f1")):
                 yield tuple(c[0] for c in combo), tuple(c[1] for c in combo), r
-    elif scheme == "tri":       # every phase its own target; amounts in {0,1}^k + all 1e-4; restriction on every position
-        ms = list(itertools.product([0.0, 1.0], repeat=k)) + [tuple([1e-4] * k)]
+    elif scheme == "tri":       # every phase its own target; amounts in {0,1}^k + all 1e-4; dissolve_only / precipitate_only
+        ms = list(itertools.product([0.0, 1.0], repeat=k)) + [tuple([1e-4] * k)]      # on every position, force_equality on the first
         for t in itertools.product(TARGETS, repeat=k):
             for m in ms:
-                for r in restr_options(k):
+                for r in restr_options(k, f_first_only=True):
                     yield t, m, r
     elif scheme == "reduced":   # targets in {0,0.5}^k; five cyclic amount patterns; restriction on the first phase
         for t in itertools.product([0.0, 0.5], repeat=k):
@@ -267,9 +301,17 @@ def sites_text(kind, sol, T, dname, rname, ppname):
     lines = ["SOLUTION 1", " temp %s" % fmt(T), SOLS[sol].rstrip("\n"), "EXCHANGE 1" if kind == "ex" else "SURFACE 1", text.rstrip("\n")]
     if pp:
         lines += ["EQUILIBRIUM_PHASES 1", pp.rstrip("\n")]
-    if REACTIONS[rname]:
-        lines.append(REACTIONS[rname].rstrip("\n"))
-    return "\n".join(lines) + "\n" + O.punch_block(1, phases, (), masters) + "END\n", sites, phases
+    rx = REACTIONS[rname]
+    kw = "exchange" if kind == "ex" else "surface"
+    if isinstance(rx, tuple):
+        lines.append(rx[0].rstrip("\n"))
+        lines += ["SAVE solution 1", "SAVE %s 1" % kw] + (["SAVE equilibrium_phases 1"] if pp else [])
+        tail = "\n".join(["USE solution 1", "USE %s 1" % kw] + (["USE equilibrium_phases 1"] if pp else []) + [rx[1].rstrip("\n"), "END"]) + "\n"
+    else:
+        if rx:
+            lines.append(rx.rstrip("\n"))
+        tail = ""
+    return "\n".join(lines) + "\n" + O.punch_block(1, phases, (), masters) + "END\n" + tail, sites, phases
 
 
 def judge_sites(kind, r, dname, sites, phases):
@@ -349,9 +391,11 @@ def judge_ss(r, dname):
         last = k == len(rows) - 1
         for name, cs, ideal, opt in SS_DEFS[dname]:
             j.solid_solution(row, name, cs, ideal, fr.get(name) if last else None)
-            if not ideal:
+            if not ideal and last:
                 ns = [row[O.bname("ss_", c)] for c in cs]
-                if sum(ns) > 0 and all(n > 0 for n in ns):
+                fx = fr.get(name, {})
+                # diagnostic only, and only outside the miscibility gap (inside it the program reports the gap-end fractions)
+                if sum(ns) > 0 and all(n > 1e-9 * sum(ns) for n in ns) and all(abs(fx.get(c, -1.0) - n / sum(ns)) < 1e-6 for c, n in zip(cs, ns)):
                     x1, x2 = ns[0] / sum(ns), ns[1] / sum(ns)
                     l1, l2 = O.guggenheim_log10_lambda(x1, x2, *SS_GUGG[name])
                     import math
@@ -417,6 +461,7 @@ def parse_attach(op):
 
 HIST_PHASES = sorted(set(p["name"] for op in c02.ATTACH if c02.ATTACH[op][0] == "pp" for p in parse_attach(op)[1]))
 HIST_SS = sorted(set(c for op in c02.ATTACH if c02.ATTACH[op][0] == "ss" for c in parse_attach(op)[1]["comps"]))
+FULL_FIRST = ["rx:H2O-:1", "rx:HCl:3cum", "mix:half", "temp:60"]     # quick tier: first ops of the depth-2 histories on the full cell
 HIST_MASTERS = ["X", "Hfo_w", "Hfo_s"]
 HIST_PUNCH = O.punch_block(2, HIST_PHASES, HIST_SS, HIST_MASTERS)
 
@@ -489,6 +534,12 @@ def run_hist(case):
                 return out
             rows = react_rows(r, 2)
             dump = r["dump"]
+            if mode == "cells" and spec["mix"] is not None:
+                # a simulation that defines MIX 1 first runs its own batch reaction "mix 1 alone" (no reactant of the cell
+                # takes part: nothing to judge), then RUN_CELLS runs the cell
+                if len(rows) < 2:
+                    raise RuntimeError("expected the simulation's own mix row and the cell's row after op %s" % op)
+                rows = rows[1:]
             if not rows:
                 raise RuntimeError("no reaction row of user number 2 after op %s" % op)
             if "pp" in defs:
@@ -617,18 +668,27 @@ def pp_cases(tier):
     def subsets(k):
         return [list(c) for c in itertools.combinations(PHASES, k)]
     temps = TEMPS[tier]
-    for k in (1, 2):
-        cs = [{"part": "pp", "sol": s, "T": T, "phases": sub, "scheme": "full"} for T in temps for s in SOL_ORDER for sub in subsets(k)]
-        n = len(list(pp_points(k, "full")))
-        bounds.append(("pp: subsets of size %d (%d) x %d solutions x T %s x (target,moles)^%d x restriction on any position = %d points each" % (
-            k, len(subsets(k)), len(SOL_ORDER), temps, k, n), cs))
+    F1 = "dissolve_only/precipitate_only any position, force_equality first"
+    # a force_equality phase that cannot reach its target makes the program try every set of numerical parameters (30 ms
+    # per point instead of 1.3 ms): force_equality on every position only for single phases and for pairs at 25 C (thorough)
+    plan = [(1, SOL_ORDER, temps, "full")]
+    if tier == "quick":
+        plan.append((2, QUICK_PAIR_SOLS, temps, "full-f1"))
+    else:
+        plan.append((2, SOL_ORDER, [25.0], "full"))
+        plan.append((2, SOL_ORDER, [t for t in temps if t != 25.0], "full-f1"))
+    for k, sols, ts, scheme in plan:
+        cs = [{"part": "pp", "sol": s, "T": T, "phases": sub, "scheme": scheme} for T in ts for s in sols for sub in subsets(k)]
+        n = len(list(pp_points(k, scheme)))
+        bounds.append(("pp: subsets of size %d (%d) x solutions %s x T %s x (target,moles)^%d x restriction (%s) = %d points each" % (
+            k, len(subsets(k)), sols, ts, k, "any position" if scheme == "full" else F1, n), cs))
     if tier == "thorough":
-        cs = [{"part": "pp", "sol": s, "T": 25.0, "phases": sub, "scheme": "tri"} for s in SOL_ORDER for sub in subsets(3)]
-        bounds.append(("pp: subsets of size 3 (%d) x %d solutions x 25 C x targets^3 x 9 amount patterns x restriction on any position = %d points each" % (
-            len(subsets(3)), len(SOL_ORDER), len(list(pp_points(3, "tri")))), cs))
-        cs = [{"part": "pp", "sol": s, "T": 25.0, "phases": sub, "scheme": "reduced"} for s in SOL_ORDER for sub in subsets(4)]
-        bounds.append(("pp: subsets of size 4 (%d) x %d solutions x 25 C x targets {0,0.5}^4 x 5 amount patterns x restriction on the first phase = %d points each" % (
-            len(subsets(4)), len(SOL_ORDER), len(list(pp_points(4, "reduced")))), cs))
+        cs = [{"part": "pp", "sol": s, "T": 25.0, "phases": sub, "scheme": "tri"} for s in TRI_SOLS for sub in subsets(3)]
+        bounds.append(("pp: subsets of size 3 (%d) x solutions %s x 25 C x targets^3 x 9 amount patterns x restriction (%s) = %d points each" % (
+            len(subsets(3)), TRI_SOLS, F1, len(list(pp_points(3, "tri")))), cs))
+        cs = [{"part": "pp", "sol": s, "T": 25.0, "phases": sub, "scheme": "reduced"} for s in QUAD_SOLS for sub in subsets(4)]
+        bounds.append(("pp: subsets of size 4 (%d) x solutions %s x 25 C x targets {0,0.5}^4 x 5 amount patterns x restriction on the first phase = %d points each" % (
+            len(subsets(4)), QUAD_SOLS, len(list(pp_points(4, "reduced")))), cs))
         six = ["Calcite", "Dolomite", "Gypsum", "Quartz", "Fe(OH)3(a)", "CO2(g)"]
         cs = [{"part": "pp", "sol": s, "T": T, "phases": six, "scheme": "reduced"} for T in temps for s in SOL_ORDER]
         bounds.append(("pp: one subset of size 6 x %d solutions x T %s x targets {0,0.5}^6 x 5 amount patterns x restriction on the first phase = %d points each" % (
@@ -636,10 +696,11 @@ def pp_cases(tier):
     return bounds
 
 
-def hist_bfs(name, init, mode, first_ops, ops, depth, ev, findings, pool, stats, deadline):
+def hist_bfs(name, init, mode, levels, ev, findings, pool, stats, deadline):
+    """levels: the op list of every depth (level k = every distinct completed state of level k-1 extended by levels[k-1])."""
     frontier = [()]
-    for k in range(1, depth + 1):
-        use = first_ops if k == 1 else ops
+    for k in range(1, len(levels) + 1):
+        use = levels[k - 1]
         cases = [{"part": "hist", "init": init, "mode": mode, "ops": list(seq) + [op]} for seq in frontier for op in use]
         bname = "hist %s: init=%s mode=%s depth %d (%d histories)" % (name, init, mode, k, len(cases))
         if deadline.passed():
@@ -675,9 +736,10 @@ def run(tier):
         "default convergence_tolerance (KNOBS unchanged): the statement's tolerances do not require a tighter one",
         "sites tied to a mineral: defined sites = sites per mole x EQUI(mineral) of the same row",
     ]
+    drv.exe("rel")            # library + driver are built (if stale) before the deadline clock starts
     pool = core.Pool()
     stats = Stats()
-    dl = core.Deadline(150 if tier == "quick" else 840)
+    dl = core.Deadline(float(os.environ.get("VERIF_C03_DEADLINE", "150" if tier == "quick" else "840")))
     temps = TEMPS[tier]
 
     def lattice(name, cases, part):
@@ -691,7 +753,8 @@ def run(tier):
 
     deadline_cut = [False]
     ppb = pp_cases(tier)
-    for name, cs in ppb[:2]:
+    npair = 2 if tier == "quick" else 3
+    for name, cs in ppb[:npair]:
         lattice(name, cs, "pp")
     for part, defs in (("ex", EX_DEFS), ("su", SU_DEFS)):
         cs = [{"part": part, "sol": s, "T": T} for T in temps for s in SOL_ORDER]
@@ -701,16 +764,18 @@ def run(tier):
     allops = c02.alphabet()
     relevant = [o for o in allops if o in c02.ATTACH and c02.ATTACH[o][0] in ("pp", "ex", "su", "ss")]
     if tier == "quick":
-        plan = [("full alphabet from the cell with every reactant", "full", m, allops, allops, 1) for m in ("use", "cells")] + \
-               [("attach op then any op", "plain", m, relevant, allops, 2) for m in ("use", "cells")]
+        plan = [("any op on the cell with every reactant", "full", m, [allops]) for m in ("use", "cells")] + \
+               [("water/composition-changing op, any op on the cell with every reactant", "full", m, [FULL_FIRST, allops]) for m in ("use", "cells")] + \
+               [("attach op, any op", "plain", m, [relevant, allops]) for m in ("use", "cells")]
     else:
-        plan = [("full alphabet from the cell with every reactant", "full", m, allops, allops, 2) for m in ("use", "cells")] + \
-               [("attach op then any two ops", "plain", m, relevant, allops, 3) for m in ("use", "cells")]
-    for name, init, mode, first, ops, depth in plan:
+        plan = [("any two ops on the cell with every reactant", "full", m, [allops, allops]) for m in ("use", "cells")] + \
+               [("attach op, any op", "plain", m, [relevant, allops]) for m in ("use", "cells")] + \
+               [("attach op, attach op, any op", "plain", m, [relevant, relevant, allops]) for m in ("use", "cells")]
+    for name, init, mode, levels in plan:
         if not deadline_cut[0]:
-            if not hist_bfs(name, init, mode, first, ops, depth, ev, findings, pool, stats, dl):
+            if not hist_bfs(name, init, mode, levels, ev, findings, pool, stats, dl):
                 deadline_cut[0] = True
-    for name, cs in ppb[2:]:
+    for name, cs in ppb[npair:]:
         lattice(name, cs, "pp")
     pool.close()
     ev.extra["alphabet"] = {"phases": PHASES, "targets": TARGETS, "initial_moles": MOLES, "restrictions": ["none", "dissolve_only", "precipitate_only", "force_equality"],
@@ -725,7 +790,7 @@ def run(tier):
                            for p, v in sorted(stats.by_part.items())}
     ev.extra["largest_deviation_among_passing_rows"] = {"|SI - target| of present phases": stats.worst["si"], "relative site imbalance": stats.worst["site"],
                                                         "|SI - log10 x| of ideal components": stats.worst["act"]}
-    ev.n_states_extra = stats.completed
+    ev.n_states_extra = sum(v["completed"] for p, v in stats.by_part.items() if p != "hist")     # every completed lattice point is a distinct state; hist states are counted by key
     for p, v in stats.by_part.items():
         if v["points"] and v["completed"] < 0.5 * v["points"]:
             print("HARNESS ERROR C03: part %s: only %d of %d runs completed - the check is broken" % (p, v["completed"], v["points"]))
